@@ -193,6 +193,25 @@ def construct(case):
     return ptn.linear_fermionic_mpo(coeff, case['ftype'])
 
 
+ZERO_TAG = 'zero operator:'
+
+
+def known_findings_present(k):
+    """F14: the listed inputs, replayed on the real code on every run"""
+    if k.get('key') != 'zero-operator-raises':
+        return False
+    import pytenet as ptn
+    hits = 0
+    for f in (lambda: ptn.heisenberg_xxz_mpo(1, 0.7, 0.7, 0.), lambda: ptn.fermi_hubbard_mpo(2, 0., 0., 0.)):
+        try:
+            f()
+        except AssertionError:
+            hits += 1
+        except Exception:
+            pass
+    return hits == 2
+
+
 def run_case(case):
     """the property on one input: None or a description of the violation"""
     L = case['L'] if 'L' in case else len(case['coeff'])
@@ -201,7 +220,18 @@ def run_case(case):
         return None
     ref = np.asarray(reference(case))
     if not np.any(ref != 0):
-        return None          # the identically-zero operator is outside the property
+        # the identically-zero operator (every parameter zero, or L = 1 with only two-site couplings): the chain-based constructors
+        # raise a bare AssertionError (known finding F14); a constructor that returns must return the zero operator
+        try:
+            mpo0 = with_alarm(60.0, lambda: construct(case))
+        except AssertionError:
+            return ZERO_TAG + ' constructor raises AssertionError although the documented formula is the zero operator'
+        except Exception as ex:
+            return f'constructor raises {type(ex).__name__}: {ex}'
+        M0 = np.asarray(mpo0.as_matrix())
+        if M0.shape != ref.shape or np.abs(M0).max(initial=0) > 1e-12:
+            return 'documented formula is the zero operator, the returned MPO is not'
+        return None
     try:
         mpo = with_alarm(60.0, lambda: hamlib.call_again_after_mutation(lambda: construct(case), case))
     except CaseTimeout:
@@ -318,6 +348,8 @@ def search(tier, seed, hints, budget_s):
         r = run_case(case)
         if r is not None:
             key = 'c06:' + case['model'] + ':' + str(zlib.crc32(json.dumps(case, sort_keys=True).encode()))
+            if r.startswith(ZERO_TAG):
+                key = 'zero-operator-raises'      # known finding F14 (any other violation keeps its own key)
             return {'key': key, 'what': r, 'replay': dict(case, call=describe(case), observed=r)}
         if time.time() - t0 > budget_s:
             return None
